@@ -61,6 +61,9 @@ class SimFS:
 
     def delete(self, path: str) -> None:
         self.files.pop(path, None)
+        if path in self.dirs and not any(d.startswith(path + "/") for d in self.dirs) \
+                and not any(f.startswith(path + "/") for f in self.files):
+            self.dirs.discard(path)   # an (empty) directory that had replaced the file
 
     def clone(self) -> "SimFS":
         c = SimFS()
